@@ -210,7 +210,13 @@ def C36(ctx):
                  "SubintentDoesNotEndWithYieldToParent", "ProofCannotBePassedToAnotherIntent",
                  "InstructionFollowingNextCallAssertionWasNotInvocation", "ManifestEndedWhilstExpectingNextCallAssertion"}
     ops_t = {i["op"] for e in evs for i in e["m"]["ins"]}
-    if len(scen) < 45 or not need_errs <= errs or len(ops_t) < 18:
+    inv = {tuple(x.split(":")[1:]) for x in scen if x.startswith("inv:")}
+    inv_ok = {tuple(e["scenario"].split(":")[1:]) for e in evs if e.get("scenario", "").startswith("inv:") and e["static"]["all"] == "ok"}
+    inv_rej = {tuple(e["scenario"].split(":")[1:]) for e in evs if e.get("scenario", "").startswith("inv:") and e["static"]["all"].startswith("err:")}
+    if len(inv) < 22 * 13 or len({a for a, _ in inv_ok}) < 20 or len({a for a, _ in inv_rej}) < 15 or len({b for _, b in inv_ok}) < 13:
+        raise ToolError("invalidation product incomplete: %d pairs, %d/%d invalidators with accepted/rejected follow-ups" % (
+            len(inv), len({a for a, _ in inv_ok}), len({a for a, _ in inv_rej})))
+    if len(scen) < 45 or not need_errs <= errs or len(ops_t) < 21:
         raise ToolError("lifecycle traffic not exhaustive over its classes: %d scenarios, missing error classes %s, %d instruction kinds" % (
             len(scen), sorted(need_errs - errs), len(ops_t)))
     accepted_scen = {e["scenario"] for e in evs if "scenario" in e and e["static"]["all"] == "ok" and e["run"]["cls"] == "commit"}
@@ -247,7 +253,7 @@ def C36(ctx):
             "generated_manifests": len(cases), "generated_accepted_and_executed": accepted_run, "replay_counts": counts,
             "random_manifests": len(evs), "random_accepted": acc, "random_run_outcomes": ran, "violation_counts": dict(viol.seen),
             "rule": "S+G: TLC enumerates every instruction sequence of length <= %d over 36 abstract instructions (27 for V1 kinds; 2 bucket "
-                    "ids, 2 proof ids, 1 reservation, 1 named address, 1 child, declared / undeclared blob) for 7 kind configurations "
+                    "ids, 2 proof ids, 1 reservation, 1 named address, 1 child, declared / undeclared blob; +3 with DROP_NAMED / DROP_AUTH_ZONE_PROOFS) for 7 kind configurations "
                     "(TransactionManifestV1, SystemTransactionManifestV1 with 0/1 pre-allocated address, TransactionManifestV2 and "
                     "SubintentManifestV2 with 0/1 child), checks that the declarative StaticOK and the incremental automaton agree under "
                     "both rule sets, and prints each with StaticOK; the harness builds the manifest from instruction structs, runs "
@@ -255,7 +261,10 @@ def C36(ctx):
                     "executes every accepted manifest on a LedgerSimulator (subintents under a funding root intent, children as simple "
                     "subintents).  Violation directions only: accepted but not StaticOK; accepted and failing at run time with "
                     "BucketNotFound / ProofNotFound / AddressReservationNotFound / AddressNotFound / BlobNotFound / InvalidIntentIndex.  "
-                    "T: seeded random manifests of 2-16 instructions (about half well-formed, the others with one injected fault: "
+                    "T: first a deterministic product - 47 boundary scenarios x 7 kind configurations, and 22 invalidating instructions "
+                    "(DROP_ALL / DROP_NAMED / DROP_AUTH_ZONE_* proofs, return, burn, deposit, passing or pushing or dropping each proof, using the "
+                    "reservation, clone-then-drop, yields with a bucket ...) x 13 later uses of every kind of name x 3 kinds, accepted ones executed; "
+                    "then seeded random manifests of 2-16 instructions (about half well-formed, the others with one injected fault: "
                     "unknown / consumed id, locked bucket, proof across intents, missing invocation after ASSERT_NEXT_CALL_RETURNS, "
                     "wrong kind) evaluated the same way and judged by TraceLifecycle.  distinct = distinct manifests" % (2 if q else 3)}
 
@@ -299,6 +308,12 @@ def C38(ctx):
                     continue        # B refuses: the transaction fails, nothing to compare
                 if ("sink:%s:%s" % (how, rname), st) not in ok_scen:
                     raise ToolError("scenario sink:%s:%s did not run successfully on ledger state %d" % (how, rname, st))
+    typed = {n.split(":")[1] for n, _ in ok_scen if n.startswith("typed:")}
+    need_typed = {"withdraw", "withdraw-xrd", "lock-fee-withdraw", "lock-fee-withdraw-xrd", "lock-fee-withdraw-fee-larger", "withdraw-nf",
+                  "lock-fee-withdraw-nf", "lock-fee-then-withdraw", "contingent-fee-then-withdraw", "proof-then-withdraw",
+                  "proof-nf-then-withdraw-nf", "burn-then-withdraw", "two-withdrawals"}
+    if not need_typed <= typed:
+        raise ToolError("typed account-method scenarios without a successful run: %s" % sorted(need_typed - typed))
     need_scen = {"take-equal:F", "take-less:F", "take-half:X", "take-equal:refund:X", "ids-all", "ids-some", "ids-none", "empty:take-all-deposit",
                  "empty:worktop-deposit", "empty:withdraw-no-ids", "assert-equal:contains", "assert-less:include", "assert-equal:bucket",
                  "assert-only", "return-retake", "batch-two", "unknown-source:deposit", "unknown-source:try_refund"}
@@ -325,8 +340,8 @@ def C38(ctx):
     m = by(lambda e: any(e["pred"]["dep"][a] and not e["pred"]["dep"][a][0]["unspec"] and "X" not in e["pred"]["dep"][a][0]["specified"] for a in ("B", "C")))
     a = next(a for a in ("B", "C") if m["pred"]["dep"][a] and not m["pred"]["dep"][a][0]["unspec"] and "X" not in m["pred"]["dep"][a][0]["specified"])
     m["act"][a]["dep"]["X"]["a"] += 4; m["act"][a]["net"]["X"] += 4; muts.append((m, "deposit-within-bounds:" + a))
-    m = by(lambda e: e["act"]["A"]["wd"]["F"]["a"] > 0); m["act"]["A"]["wd"]["F"]["a"] += 2; m["act"]["A"]["net"]["F"] -= 2; muts.append((m, "withdraw-as-predicted"))
-    m = by(lambda e: True); m["act"]["C"]["net"]["F"] += 4; muts.append((m, "measurement-consistent"))
+    m = by(lambda e: e["act"]["A"]["wda"]["F"] > 0); m["act"]["A"]["wda"]["F"] += 2; muts.append((m, "withdraw-as-predicted"))
+    m = by(lambda e: e["act"]["A"]["wd"]["F"]["a"] > 0); m["act"]["A"]["wd"]["F"]["a"] += 4; muts.append((m, "measurement-consistent"))
     chunks = 4 if q else 12
     bad = validate_calls_why("Movements", "TraceMovements", "TraceMovements", evs + [m for m, _ in muts], "C38-mv", chunks=chunks)
     for j, (m, reason) in enumerate(muts):
